@@ -36,7 +36,8 @@ def ENCODED():
     import ethosu.vela.weight_compressor as wc
 
     return [sch.Scheduler.propose_weight_buffering, wc.encode_weight_and_scale_tensor, lut.optimize_high_level_cmd_stream, lut.LUTState.put, lut.LUTState.find_best_address, lut.LUTState.get_equivalent, lut.get_lut_index,
-            gen.generate_high_level_commands_for_sched_op, lr.extract_live_ranges_from_schedule]
+            gen.generate_high_level_commands_for_sched_op, lr.extract_live_ranges_from_schedule, lr.LiveRange.mark_usage, lr.merge_elementwise_op_ranges,
+            lr._get_ifm_to_fuse, wc.NpuWeightTensor.max_range_bytes]
 
 
 class _Obj:
